@@ -914,7 +914,12 @@ func filterAndScoreFuzzyMatch(items []protocol.CompletionItem, query string, fuz
 	var result []scoredItem
 	for _, item := range items {
 		if strings.Contains(item.Label, ":") {
-			if score := fuzzyMatchScoreBySegments(item.Label, queryForSegment); score > 0 {
+			segmentsOf := item.Label
+			if queryForSegment != query {
+				// the colon typed after the fragment has to follow the segment that matches
+				segmentsOf = item.Label[:strings.LastIndex(item.Label, ":")]
+			}
+			if score := fuzzyMatchScoreBySegments(segmentsOf, queryForSegment); score > 0 {
 				result = append(result, scoredItem{item: item, score: score})
 				continue
 			}
